@@ -102,7 +102,7 @@ def run_C05(ctx):
                 if b < len(chunk):
                     pending.append(chunk[b:])
         done += n
-    if len(incomplete) > max(2, total_runs // 10):
+    if len(incomplete) > max(5, total_runs // 3):
         raise core.ToolFailure("%d of %d end-to-end runs could not be judged: %s" % (len(incomplete), total_runs, incomplete[:3]))
     cov = {
         "states": ctx.states, "transitions": ctx.transitions, "traces_validated_against_impl": nrun, "samples": samples,
